@@ -364,26 +364,44 @@ def lifecycle(rep, u, vals):
     direct = [pos for pos, root, c, ps in fx.calls({"tp_task_handler"})]
     ok = False
     if direct:
-        for bid in fx.reachable_blocks():
-            c = fx.blocks[bid].cond
-            if c is None:
-                continue
-            c0 = core.strip_imp(c)
-            if c0.get("k") == "bin" and c0["op"] in (">", "<", ">=", "<=") and "buf->size" in key(c0) and "buf->offset" in key(c0) \
-                    and "transfer_size" in key(c0) and fx.dominates(bid, direct[0][0]):
-                # offset + tr > size  => must not reach the direct call
-                sides = (c0["x"], c0["y"])
-                big = sides[0] if "buf->offset" in key(sides[0]) else sides[1]
-                small = sides[1] if big is sides[0] else sides[0]
-                try:
-                    v_over = r_mpt.eval_expr(c, {id(core.strip_imp(big)): 11, id(core.strip_imp(small)): 10,
-                                                 id(big): 11, id(small): 10})
-                    v_eq = r_mpt.eval_expr(c, {id(core.strip_imp(big)): 10, id(core.strip_imp(small)): 10, id(big): 10, id(small): 10})
-                except r_mpt.Unknown:
+        # evaluated, not matched: the direct transfer is reachable for an exactly fitting window and not for one byte more
+        # (whatever form the test has: one comparison, a short-circuit chain, a subtraction instead of the sum)
+        def reach_direct(off, tr, size):
+            fields = {"offset": off, "transfer_size": tr, "size": size}
+            seen, work = set(), [fx.entry]
+            while work:
+                b = work.pop()
+                if b in seen:
                     continue
-                s_over = fx.blocks[bid].succ[0] if v_over else fx.blocks[bid].succ[1]
-                s_eq = fx.blocks[bid].succ[0] if v_eq else fx.blocks[bid].succ[1]
-                ok = not r_mpt.can_reach(fx, s_over, direct, avoid=[bid]) and r_mpt.can_reach(fx, s_eq, direct, avoid=[bid])
+                seen.add(b)
+                blk = fx.blocks[b]
+                succ = [s_ for s_ in blk.rsucc() if s_ is not None]
+                c = blk.cond
+                if c is not None and len(blk.succ) == 2:
+                    atoms = [y for y, _ in walk(c) if y.get("k") == "mem" and y["f"] in fields and "buf" in key(y["b"])]
+                    env = {id(a): fields[a["f"]] for a in atoms}
+                    # the task is a socket transfer task: its handler is tp_task_sr_handler on every test of it (the two
+                    # tests of the handler kind are correlated, which a path-insensitive walk would not know)
+                    for y, _ in walk(c):
+                        if y.get("k") == "mem" and y["f"] == "cb_func":
+                            env[id(y)] = 0x111
+                            atoms.append(y)
+                        elif core.is_ref(y, name="tp_task_sr_handler"):
+                            env[id(y)] = 0x111
+                        elif core.is_ref(y, name="tp_task_rw_handler"):
+                            env[id(y)] = 0x222
+                        elif core.is_ref(y) and y.get("dk") == "parm" and (fx.unit.type(y["t"]) or {}).get("k") == "ptr" and "io_buf" in fx.unit.tstr(y["t"]):
+                            env[id(y)] = 0x5000                 # ... and it has a buffer
+                            atoms.append(y)
+                    if atoms:
+                        try:
+                            v = r_mpt.eval_expr(c, env)
+                            succ = [blk.succ[0] if v else blk.succ[1]]
+                        except r_mpt.Unknown:
+                            pass
+                work.extend(succ)
+            return direct[0][0] in seen
+        ok = reach_direct(4, 6, 10) and not reach_direct(4, 7, 10) and not reach_direct(11, 1, 10)
     (rep.proved if ok else rep.violated)("R-BOUND", fx, "window-validated", "the immediate first transfer happens only if offset + transfer size <= buffer size "
                                          "(an exactly fitting window is accepted)")
 
@@ -411,6 +429,8 @@ def run(rep, tier):
     uio = driver.load_units([common.hdr_unit("utils/io_buf.h", "utils/io_buf.h")])["utils/io_buf.h"]
     c16_audit.window_clamp_rule(rep, uio)
     c16_audit.datagram_receiver_rule(rep, u)
+    c16_audit.window_validation_rule(rep, u)
+    rep.floor("stores of the task setters", c16_audit.setter_null_rule(rep, u), 3)
     return driver.finish(
         rep, "other",
         "Static analysis of threadpool_task.c. Decided: %d registration calls agree on (event kind, record); single non-cyclic "
